@@ -599,7 +599,6 @@ func checkC13(c *core.Ctx) {
 		return true
 	})
 	c.Count("usage_set_stores", nStores)
-	c.Floor("usage_set_stores", 1)
 	// usedTypes family: only literal true
 	for _, name := range []string{"FieldType.usedTypes"} {
 		if f := p.FuncDecl(pkg, name); f != nil {
@@ -700,7 +699,11 @@ func checkC13(c *core.Ctx) {
 		}
 		return true
 	})
-	c.Check("R5", "the fixpoint continues only when a set grew", p.Pos(fd.Pos()), deltaGuarded && !unguarded, "the loop flag is set to true outside a test that the entry is new: the fixpoint loop may never end")
+	if len(loopFlags) > 0 {
+		c.Check("R5", "the fixpoint continues only when a set grew", p.Pos(fd.Pos()), deltaGuarded && !unguarded, "the loop flag is set to true outside a test that the entry is new: the fixpoint loop may never end")
+	} else if !visitedSetSearch(c, p, fd) {
+		c.Undecide("Validate: the struct self-containment analysis is neither the closure fixpoint nor a search with a visited set: not recognised")
+	}
 	_ = token.NoPos
 }
 
@@ -1148,4 +1151,135 @@ func definedTypeSets(p *load.Prog, pkg *packages.Package, fd *ast.FuncDecl) map[
 		})
 	}
 	return sets
+}
+
+
+// visitedSetSearch: R5b. When the self-containment analysis is a graph search
+// (depth-first or with a work list) it terminates because of its visited set,
+// and it is complete only if that set belongs to one search: a set shared by
+// the searches from all structs makes the search from B skip what the search
+// from A already expanded, and a cycle B->C->B reached first from A is missed.
+// Returns false when no visited-set search is found at all.
+func visitedSetSearch(c *core.Ctx, p *load.Prog, validate *ast.FuncDecl) bool {
+	pkg := p.Bebop()
+	info := pkg.TypesInfo
+	type body struct {
+		node  ast.Node // FuncDecl or FuncLit
+		block *ast.BlockStmt
+		name  types.Object // the variable or function by which it is called
+	}
+	var bodies []body
+	for _, d := range declClosure(p, pkg, validate, 2) {
+		bodies = append(bodies, body{d, d.Body, info.ObjectOf(d.Name)})
+		ast.Inspect(d.Body, func(n ast.Node) bool {
+			switch x := n.(type) {
+			case *ast.AssignStmt:
+				for i, r := range x.Rhs {
+					if lit, ok := r.(*ast.FuncLit); ok && i < len(x.Lhs) {
+						if id, ok := x.Lhs[i].(*ast.Ident); ok {
+							bodies = append(bodies, body{lit, lit.Body, info.ObjectOf(id)})
+						}
+					}
+				}
+			}
+			return true
+		})
+	}
+	found := false
+	for _, b := range bodies {
+		// maps used as a visited set inside b: tested-then-skipped and stored
+		tested, stored := map[types.Object]bool{}, map[types.Object]bool{}
+		ast.Inspect(b.block, func(n ast.Node) bool {
+			switch x := n.(type) {
+			case *ast.IfStmt:
+				// guard form: if … && !M[x] { M[x] = true; descend }
+				ast.Inspect(x.Cond, func(k ast.Node) bool {
+					if u, ok := k.(*ast.UnaryExpr); ok && u.Op == token.NOT {
+						if ix, ok := ast.Unparen(u.X).(*ast.IndexExpr); ok {
+							if id, ok := ast.Unparen(ix.X).(*ast.Ident); ok {
+								if _, isMap := info.TypeOf(id).Underlying().(*types.Map); isMap {
+									tested[info.ObjectOf(id)] = true
+								}
+							}
+						}
+					}
+					return true
+				})
+				skips := false
+				if len(x.Body.List) > 0 {
+					switch y := x.Body.List[len(x.Body.List)-1].(type) {
+					case *ast.BranchStmt:
+						skips = y.Tok == token.CONTINUE
+					case *ast.ReturnStmt:
+						skips = true
+					}
+				}
+				if !skips {
+					return true
+				}
+				var ix *ast.IndexExpr
+				if as, ok := x.Init.(*ast.AssignStmt); ok && len(as.Rhs) == 1 {
+					ix, _ = ast.Unparen(as.Rhs[0]).(*ast.IndexExpr)
+				} else {
+					ix, _ = ast.Unparen(x.Cond).(*ast.IndexExpr)
+				}
+				if ix != nil {
+					if id, ok := ast.Unparen(ix.X).(*ast.Ident); ok {
+						if _, isMap := info.TypeOf(id).Underlying().(*types.Map); isMap {
+							tested[info.ObjectOf(id)] = true
+						}
+					}
+				}
+			case *ast.AssignStmt:
+				for _, l := range x.Lhs {
+					if ix, ok := l.(*ast.IndexExpr); ok {
+						if id, ok := ast.Unparen(ix.X).(*ast.Ident); ok {
+							stored[info.ObjectOf(id)] = true
+						}
+					}
+				}
+			}
+			return true
+		})
+		for m := range tested {
+			if !stored[m] {
+				continue
+			}
+			found = true
+			perSearch := b.block.Pos() <= m.Pos() && m.Pos() < b.block.End()
+			why := ""
+			if !perSearch {
+				// declared outside the searching function: are the searches started
+				// from a loop that does not re-create it?
+				ast.Inspect(validate.Body, func(n ast.Node) bool {
+					var lb *ast.BlockStmt
+					switch x := n.(type) {
+					case *ast.RangeStmt:
+						lb = x.Body
+					case *ast.ForStmt:
+						lb = x.Body
+					default:
+						return true
+					}
+					starts := false
+					ast.Inspect(lb, func(k ast.Node) bool {
+						if call, ok := k.(*ast.CallExpr); ok {
+							if id, ok := ast.Unparen(call.Fun).(*ast.Ident); ok && info.ObjectOf(id) == b.name {
+								starts = true
+							}
+						}
+						return true
+					})
+					declaredInLoop := lb.Pos() <= m.Pos() && m.Pos() < lb.End()
+					if starts && !declaredInLoop && !(b.block.Pos() >= lb.Pos() && b.block.End() <= lb.End()) {
+						why = "the visited set " + m.Name() + " is created once, before the loop at " + p.Pos(n.Pos()) + " that starts one search per struct"
+					}
+					return true
+				})
+			}
+			c.Check("R5", "the visited set "+m.Name()+" of the self-containment search belongs to one search", p.Pos(m.Pos()), perSearch || why == "",
+				why+": what the search from one struct expanded is skipped by the search from the next, so a cycle that is first reached from a struct outside it is not found")
+		}
+	}
+	return found
 }
